@@ -609,15 +609,16 @@ count and final registers and memory on every generated case (fields `m61pK` of 
 namespace Props.C12
 
 /-- **C12 lower bound, MVP-6.1.**  A machine with `eu` execute units executes at most `eu` instructions per tick
-(`executed` counts the calls of an instruction's `Run`, wrong-path instructions included), and the returned cycle count
-is at least `executed / eu` — or it is 0: an error of an instruction inside the flush path's loop makes `Run` return
-`0, nil` (`cpu.go`: `if resp.err != nil { return 0, nil }`).  Holds for every run (halted, out of fuel, Go panic).
+(`executed` counts the calls of an instruction's `Run`, wrong-path instructions included), and the cycle counter is at
+least `executed / eu`.  Holds for every run (halted, out of fuel, Go panic; on a run that ends with an instruction error
+Go returns 0 next to the error — the model's counter is the one `Run` had reached).
 Unlike MVP-6.0, `ticks ≤ cycles` is false here: the ticks of the write units' drain loops inside the flush path do not
-advance the cycle counter (no instruction runs in them). -/
+advance the cycle counter (no instruction runs in them).
+(Before the fix of M61-defect-1 — `return 0, nil` in the flush path's loop — the statement needed the disjunct
+`cycles = 0`.) -/
 theorem mvp61_lower_bound (app : App) (ctx : Model.Context) (eu wu fuel : Nat) :
     (Model.Mvp61.run app ctx eu wu fuel).final.executed ≤ eu * (Model.Mvp61.run app ctx eu wu fuel).ticks ∧
-    ((Model.Mvp61.run app ctx eu wu fuel).final.cycles = 0 ∨
-      ((Model.Mvp61.run app ctx eu wu fuel).final.executed : Int) ≤ eu * (Model.Mvp61.run app ctx eu wu fuel).final.cycles) :=
+    ((Model.Mvp61.run app ctx eu wu fuel).final.executed : Int) ≤ eu * (Model.Mvp61.run app ctx eu wu fuel).final.cycles :=
   Proofs.Mvp61.run_executed_le app ctx eu wu fuel
 
 /-- Non-vacuity: a run with a positive cycle count and instructions executed, close to the bound's shape — the
@@ -735,20 +736,20 @@ theorem mvp61_forwarding_witness :
   obtain ⟨d, _, _, _, e, f, g, _⟩ := Proofs.Mvp61Witness.obs_eq Proofs.Mvp61Witness.fwd_p2
   exact ⟨a, b, c, d, e, f, g⟩
 
-/-- **M61-defect-1 as a theorem on the tied model: an error inside the flush loop is swallowed.**  On
-`lw t0, 0(zero); div t1, t2, t0; beqz zero, l; nop; l:` with memory all zero the unpipelined machine and MVP-6.1 with two
-units end with the error (division by zero); MVP-6.1 with three units ends WITHOUT error (`offEnd` = Go's `nil`), reports
-0 cycles, and has executed 3 instructions — `cpu.go`: `if resp.err != nil { return 0, nil }` in the loop "executing
-previous unit cycles".  (So the disjunct `cycles = 0` of `mvp61_lower_bound` cannot be dropped.) -/
-theorem mvp61_error_in_flush_swallowed :
+/-- **M61-defect-1 (fixed in /repo) on the tied model: an error inside the flush loop is reported.**  On
+`lw t0, 0(zero); div t1, t2, t0; beqz zero, l; nop; l:` with memory all zero the unpipelined machine ends with the error
+(division by zero), and so does MVP-6.1 with two AND with three units.  With three units the `div` fails inside the
+flush path's loop "executing previous unit cycles" (the branch behind it has already asked for the flush; 3 instructions
+executed); before the fix `cpu.go` said `if resp.err != nil { return 0, nil }` there and the run was reported successful
+with 0 cycles. -/
+theorem mvp61_error_in_flush_reported :
     (Model.Seq.runMvp1 Proofs.Mvp61Witness.zeroApp ⟨Proofs.Mvp61Witness.ctxZ 64, 0⟩ 10).halt = some .err ∧
     (Model.Mvp61.run Proofs.Mvp61Witness.zeroApp (Proofs.Mvp61Witness.ctxZ 64) 2 2 1000).halt = some .err ∧
-    (Model.Mvp61.run Proofs.Mvp61Witness.zeroApp (Proofs.Mvp61Witness.ctxZ 64) 3 3 1000).halt = some .offEnd ∧
-    (Model.Mvp61.run Proofs.Mvp61Witness.zeroApp (Proofs.Mvp61Witness.ctxZ 64) 3 3 1000).final.cycles = 0 ∧
+    (Model.Mvp61.run Proofs.Mvp61Witness.zeroApp (Proofs.Mvp61Witness.ctxZ 64) 3 3 1000).halt = some .err ∧
     (Model.Mvp61.run Proofs.Mvp61Witness.zeroApp (Proofs.Mvp61Witness.ctxZ 64) 3 3 1000).final.executed = 3 := by
   obtain ⟨a, _⟩ := Proofs.Mvp61Witness.obsSeq_eq Proofs.Mvp61Witness.zero_seq
   obtain ⟨b, _⟩ := Proofs.Mvp61Witness.obs_eq Proofs.Mvp61Witness.zero_p2
-  obtain ⟨c, d, _, e, _⟩ := Proofs.Mvp61Witness.obs_eq Proofs.Mvp61Witness.zero_p3
-  exact ⟨a, b, c, d, e⟩
+  obtain ⟨c, _, _, e, _⟩ := Proofs.Mvp61Witness.obs_eq Proofs.Mvp61Witness.zero_p3
+  exact ⟨a, b, c, e⟩
 
 end Props.C12
